@@ -88,3 +88,43 @@ pub fn h_fold_{OP:1}(s: &mut In) -> HR {
     vcheck!("the n-ary builtin is the left fold of the binary operation", same_result(&got, &expected(op, &nums[..n])));
     Ok(())
 }
+
+/// the relation of chain operator `op` on one adjacent pair, through Number's own (proved) comparison
+fn pair_holds(op: u8, a: &N, b: &N) -> bool {
+    match op {
+        0 => a == b,
+        1 => a > b,
+        2 => a >= b,
+        3 => a < b,
+        _ => a <= b,
+    }
+}
+
+// Twins (native only) for the Verus unit base_cmp: the five n-ary comparison chains are the conjunction of their adjacent pairs.
+//@ expand OP in 0equals 1greater 2greater_equal 3less 4less_equal
+//@ props C10
+//@ role twin
+//@ nokani
+//@ grid 400000
+//@ twin_of base_cmp:{OP:1}
+pub fn h_chain_{OP:1}(s: &mut In) -> HR {
+    let n = (s.u8() % 5) as usize;
+    let (x, y, z, w) = (draw_number(s), draw_number(s), draw_number(s), draw_number(s));
+    vassume!(wf(&x) && wf(&y) && wf(&z) && wf(&w));
+    let op: u8 = {OP0};
+    let nums = [x, y, z, w];
+    let args: Vec<V> = nums[..n].iter().map(|v| Value::Number(*v)).collect();
+    let got = match op {
+        0 => equals(args),
+        1 => greater(args),
+        2 => greater_equal(args),
+        3 => less(args),
+        _ => less_equal(args),
+    };
+    let mut all = true;
+    for i in 1..n {
+        all = all && pair_holds(op, &nums[i - 1], &nums[i]);
+    }
+    vcheck!("the n-ary comparison is the conjunction of its adjacent pairs", matches!(got, Ok(Value::Boolean(b)) if b == all));
+    Ok(())
+}
